@@ -34,7 +34,7 @@ def world(z1=None, z2=None, edits=()):
     """edits: argument edits applied AT CONSTRUCTION (reference semantics); the live world applies the same edits in place afterwards"""
     import py_ballisticcalc as pb
     U = pb.Unit
-    dmA = pb.DragModel(0.223, pb.TableG7, U.Grain(168), U.Inch(0.308), U.Inch(1.2))
+    dmA = pb.DragModel(0.223 if 'bcA' not in edits else 0.3, pb.TableG7, U.Grain(168), U.Inch(0.308), U.Inch(1.2))
     dmB = pb.DragModel(0.4, pb.TableG1, U.Grain(150), U.Inch(0.3), U.Inch(1.1))
     W1, W2 = pb.Weapon(U.Inch(2), U.Inch(12)), pb.Weapon(U.Inch(1.5), U.Inch(-9))
     if z1 is not None:
@@ -97,6 +97,8 @@ def run(op, w):
                 w['windsA'].append(pb.Wind(U.MPH(8), U.Degree(270), U.Yard(15)))
             elif op[1] == 'mvG':
                 w['S']['G'].ammo.mv = U.FPS(2400)
+            elif op[1] == 'bcA':
+                w['dmA'].BC = 0.3
             w['edits'].add(op[1])
             return ['ok', op[1]]
         if kind == 'new_calc':
@@ -125,7 +127,7 @@ def all_ops():
     ops = [[kind, k, s] for kind in ('zero', 'fire', 'firex', 'danger') for k in ('K0', 'K1', 'fresh') for s in 'ABCDFG']
     ops += [['zerofar', k, 'E'] for k in ('K0', 'K1', 'fresh')]
     ops += [['new_calc', 'K0'], ['new_calc', 'K1'], ['new_multibc'], ['new_multibc_from', 'A'], ['new_multibc_from', 'B'], ['new_atmo'], ['new_shot', 'D'],
-            ['edit', 'swapB'], ['edit', 'appendA'], ['edit', 'mvG']]
+            ['edit', 'swapB'], ['edit', 'appendA'], ['edit', 'mvG'], ['edit', 'bcA']]
     return ops
 
 
@@ -196,7 +198,7 @@ def transition(w, op, label, swapped_d):
     if op[0] == 'new_shot':
         allowed.add('shot' + op[1])
     if op[0] == 'edit':
-        allowed |= {'shotA', 'shotB', 'shotF', 'shotG'}
+        allowed |= {'shotA', 'shotB', 'shotC', 'shotE', 'shotF', 'shotG', 'dmA'}
     for k in before:
         if before[k] != after.get(k) and k not in allowed:
             out.append(f'{label}: operation {op} changed {k} of the objects passed in')
@@ -213,7 +215,7 @@ def shares(ops):
     """do the ops of a history touch a common object (weapon, ammo, drag model, calculator)?"""
     objs = []
     groups = {'A': {'W1', 'dmA', 'ammoA', 'windsA'}, 'B': {'W2', 'dmB', 'atm'}, 'C': {'W1', 'dmA'}, 'D': {'W1', 'dmB'}, 'E': {'W2', 'dmA', 'atm'},
-              'F': {'W2', 'ammoA', 'dmA', 'atm', 'windsA'}, 'G': {'W1', 'dmC'}, 'swapB': {'W2', 'dmB', 'atm'}, 'appendA': {'windsA'}, 'mvG': {'dmC'}}
+              'F': {'W2', 'ammoA', 'dmA', 'atm', 'windsA'}, 'G': {'W1', 'dmC'}, 'swapB': {'W2', 'dmB', 'atm'}, 'appendA': {'windsA'}, 'mvG': {'dmC'}, 'bcA': {'dmA'}}
     for op in ops:
         s = set()
         for x in op[1:]:
